@@ -134,7 +134,7 @@ CLAIMS = {
              'every token kind, parent kind, flag valuation and level symbolic, and every option it reads an independent symbolic value, the '
              'value returned at each of the ~300 rule sites that log the name of an IARF option equals the configured value of that very '
              'option (one assertion per site, generated from the source on every run) - except at the protection sites the statement '
-             'exempts, where it may only be strengthened. Returning another option's value is caught for some valuation.',
+             'exempts, where it may only be strengthened. Returning the value of another option is caught for some valuation.',
         note='Bound: one neighbourhood of 4 chunks, texts of 1 (quick) / 2 (thorough) characters. The two table fall-back scans at the end of '
              'do_space are cut by a mechanical source patch (they return constants under non-option names). Not decided: application to '
              'columns (space_text), the fusion guard, later passes.',
